@@ -317,6 +317,12 @@ fn judge_cycle(
                 let r = comp.run(Mode::Execute, &envr, true, true, Arm::default());
                 let log = std::mem::take(&mut envr.borrow_mut().log);
                 IsoOutcome::Ran(diff::IsoRun { finished: None, panicked: r.panicked, canary_bad: 0, log })
+            } else if !diff::may_confirm_hang() {
+                // enough wall-clock confirmations in this worker: the limited twin's log is the evidence
+                ctx.fail(failure_json("C05", backend, w, level, code, script,
+                    &mk(diff::classify(&log, &expected).map(|x| x.0).unwrap_or("wrong"), format!("limited:fail@{n}"), &log,
+                        format!("with output action {n} failing, the limited twin did not produce exactly the first {} canonical actions (wall-clock run skipped)", n + 1), 0)));
+                return;
             } else {
                 diff::run_isolated(comp, Mode::Execute, script, cap, Some((n, OutFail::Err)), true, Arm::default(), 1500)
             };
